@@ -10,13 +10,13 @@ for r in rs:
 lines = ["# Seeded changes vs. checks", "",
          "Each change was written by an independent sub-agent (property text + scratch worktree only), re-confirmed here (`meta.json`), and run with",
          "`tools/try_mutant_wt.sh <name> <check>` (patch applied in a scratch worktree of /repo HEAD; /repo itself untouched).", "",
-         f"Evaluated: {n} changes (two per property from the first round, four more from a second round on C05, C07, C13, C20; second-round changes for C17 and C19 duplicated C17-a and C19-a) on the 20 claimed properties; " + "; ".join(f"{k}: {v}" for k, v in sorted(cnt.items())) + ".",
+         f"Evaluated: {n} changes (two per property from the first round, twelve more from later rounds on C02, C03, C05, C07, C08, C10, C11, C12, C13, C16, C18, C20; later-round changes for C17 and C19 duplicated C17-a and C19-a and are not stored) on the 20 claimed properties; " + "; ".join(f"{k}: {v}" for k, v in sorted(cnt.items())) + ".",
          "'caught' = exit 1 with a reproduced VIOLATION of the targeted property; 'missed' = the check passes; 'not decided' = exit 3 / time-out (neither alarm nor pass).", "",
          "| change | breaks | what it does | check | result | clause that fired / why missed |", "|---|---|---|---|---|---|"]
 for r in rs:
     lines.append(f"| {r['change']} | {r['property']} | {r['what']} | {r['check']} | {r['result']} | {r['how']} |")
 lines += ["", "Checks strengthened because a change was missed at first: C02 (refit histories), C09 (relative-threshold selectors), C10 (unequal folds), C12 (refit histories), "
           "C16 (collinear n=4 for Gabriel shells >= 3), C03 (4x3 configuration with two retained components for the truncated solvers: C04-b), C05 (refit history with center switched off: C05-a), "
-          "C18 (refit with a user-supplied estimator: C18-b), C17 (refit cache history: C17-b), runner (API exceptions as candidates: C14-b; witness search after a solver candidate: C01-a, C20-b).", ""]
+          "C18 (refit with a user-supplied estimator: C18-b), C17 (refit cache history: C17-b), C13 (train/test inside the family with remainder: C13-b; LRE==GRE with remainder: C13-c), C05 (homogeneous polynomial kernel: C05-c), C07 (positive tolerance: C07-c), C10 (folds of different rank: C10-c), C06 (scale-relative replay tolerance: C06-a), linalg (float-faithful inv on singular input: C03-b, C14-a), runner (API exceptions as candidates: C14-b; witness search after a solver candidate: C01-a, C20-b).", ""]
 open(os.path.join(root, "seeded", "RESULTS.md"), "w").write("\n".join(lines))
 print(cnt)
